@@ -51,6 +51,63 @@ fn shape(rng: &mut Rng, name: &str, n: usize) -> Vec<u32> {
     }
 }
 
+/// McIlroy's "killer adversary": sort the indices 0..n with a comparison that decides the keys lazily so
+/// that every pivot choice is as bad as possible; replaying the frozen keys drives the real sort into its
+/// imbalanced-partition handling (break_patterns) and its heapsort fallback.
+fn adversary(n: usize) -> Vec<u32> {
+    use std::sync::Mutex;
+    struct Adv {
+        val: Vec<u32>,
+        nsolid: u32,
+        candidate: usize,
+    }
+    let gas = n as u32;
+    // two pre-decided keys next to the first pivot candidate: the first `choose_pivot` then sees a swap and
+    // does not take the "already sorted" shortcut
+    let mut val = vec![gas; n];
+    let mut nsolid = 0;
+    if n >= 8 {
+        val[n / 4] = 0;
+        val[n / 4 - 1] = 1;
+        nsolid = 2;
+    }
+    let st = Mutex::new(Adv { val, nsolid, candidate: 0 });
+    let mut idx: Vec<usize> = (0..n).collect();
+    let never = AtomicBool::new(false);
+    nucleo::verif::par_quicksort(
+        &mut idx,
+        |&x: &usize, &y: &usize| {
+            let mut a = st.lock().unwrap();
+            if a.val[x] == gas && a.val[y] == gas {
+                let k = a.nsolid;
+                a.nsolid += 1;
+                if x == a.candidate {
+                    a.val[x] = k;
+                } else {
+                    a.val[y] = k;
+                }
+            }
+            if a.val[x] == gas {
+                a.candidate = x;
+            } else if a.val[y] == gas {
+                a.candidate = y;
+            }
+            a.val[x] < a.val[y]
+        },
+        &never,
+    );
+    // the keys that were never decided become distinct keys above all decided ones (a strict total order
+    // consistent with every answer given)
+    let mut a = st.into_inner().unwrap();
+    for i in 0..n {
+        if a.val[i] == gas {
+            a.val[i] = a.nsolid;
+            a.nsolid += 1;
+        }
+    }
+    a.val
+}
+
 fn main() {
     let args: Vec<String> = std::env::args().collect();
     let mode = args.get(1).map(|s| s.as_str()).unwrap_or("rand");
@@ -75,6 +132,49 @@ fn main() {
             }
         })));
     }
+    if mode == "comp" {
+        // the private building blocks, one call each:
+        // `QC which=<0..6> shift=<s> arg=<a> n=<len> shape=<name> data=<k.k.k> out=<k.k.k> r=<usize> b=<0|1>`
+        let join = |x: &[u32]| if x.is_empty() { "-".to_string() } else { x.iter().map(|k| k.to_string()).collect::<Vec<_>>().join(".") };
+        for k in 0..count {
+            let which = (k % 7) as u8;
+            let n = match rng.below(10) {
+                0 => 1 + rng.below(9) as usize,
+                1..=5 => 8 + rng.below(60) as usize,
+                6..=8 => 60 + rng.below(400) as usize,
+                _ => 400 + rng.below(maxlen.max(401) as u64 - 400) as usize,
+            };
+            // the quadratic ones stay small
+            let n = if which <= 1 { n.min(300) } else { n };
+            let sh = shapes[rng.below(shapes.len() as u64) as usize];
+            let mut data = shape(&mut rng, sh, n);
+            let shift = *rng.pick(&[0u32, 0, 3, 7]);
+            let mut arg = 0usize;
+            match which {
+                3 => arg = rng.below(n as u64) as usize,
+                4 => {
+                    // partition_equal requires that no element is smaller than the pivot
+                    let min = *data.iter().min().unwrap();
+                    if rng.below(3) == 0 {
+                        // many copies of the pivot
+                        for x in data.iter_mut() {
+                            if rng.below(3) == 0 {
+                                *x = min;
+                            }
+                        }
+                    }
+                    let cands: Vec<usize> = (0..n).filter(|&i| data[i] >> shift == min >> shift).collect();
+                    arg = *rng.pick(&cands);
+                }
+                _ => {}
+            }
+            let mut v = data.clone();
+            let (r, b) = nucleo::verif::sort_component(which, &mut v, arg, &|a: &u32, b: &u32| (a >> shift) < (b >> shift));
+            writeln!(out, "QC which={} shift={} arg={} n={} shape={} data={} out={} r={} b={}", which, shift, arg, n, sh, join(&data), join(&v), r, b as u8).unwrap();
+        }
+        out.flush().unwrap();
+        return;
+    }
     let pools: Vec<(usize, rayon::ThreadPool)> = [1usize, 2, 8, 16].iter().map(|&t| (t, rayon::ThreadPoolBuilder::new().num_threads(t).build().unwrap())).collect();
     for k in 0..count {
         let n = match mode {
@@ -86,9 +186,17 @@ fn main() {
                 _ => 2000 + rng.below(maxlen.max(2001) as u64 - 2000) as usize,
             },
         };
-        let sh = shapes[rng.below(shapes.len() as u64) as usize];
-        let data = shape(&mut rng, sh, n);
-        let shift = *rng.pick(&[0u32, 0, 3, 7]);
+        let mut sh = shapes[rng.below(shapes.len() as u64) as usize];
+        let mut data = shape(&mut rng, sh, n);
+        let mut shift = *rng.pick(&[0u32, 0, 3, 7]);
+        if mode == "adv" || (mode == "rand" && rng.below(8) == 0) {
+            // adversarial keys (single-threaded construction so that it is deterministic)
+            sh = "adversary";
+            let n = if mode == "adv" { 30 + (k * 7 + shard as usize * 3) % (maxlen.max(31) - 30) } else { n.min(4000) };
+            data = pools[0].1.install(|| adversary(n));
+            shift = 0;
+        }
+        let n = data.len();
         // cancellation: none, at the first load, or at a later load (only sequentially deterministic
         // with one thread, so cancel cases use the 1-thread pool)
         let cancel: i64 = match rng.below(6) {
